@@ -680,3 +680,19 @@ Proof.
   assert (ea =? n_epoch n = false) as -> by (now apply N.eqb_neq).
   reflexivity.
 Qed.
+
+(* ---------- check and insert in two critical sections: refuted ---------- *)
+
+Theorem split_admission_refuted :
+  let id := str "twin"%string in
+  let st := split_run (str "victim"%string) bi1 ([], [SInit; SInit]) [SCheck 0 id; SCheck 1 id; SInsert 0; SInsert 1] in
+  snd st = [SHolding id (Dy false 1 0); SHolding id (Dy false 1 0)] /\ List.length (fst st) = 1%nat.
+Proof. vm_compute. split; reflexivity. Qed.
+
+(* with the test and the insertion in one step (the order the code's single critical section
+   allows) the second session is rejected *)
+Example split_admission_serialized :
+  let id := str "twin"%string in
+  snd (split_run (str "victim"%string) bi1 ([], [SInit; SInit]) [SCheck 0 id; SInsert 0; SCheck 1 id; SInsert 1])
+  = [SHolding id (Dy false 1 0); SRejected].
+Proof. vm_compute. reflexivity. Qed.
